@@ -69,7 +69,8 @@ func (c cacheMsgs) commit(ctx sdk.Context, k common.KeeperOracle) {
 	i := 0
 	for ; i < len(index.Index); i++ {
 		b := index.Index[i]
-		if b > block-uint64(common.MaxNonce) {
+		// block-MaxNonce must not wrap around in the first blocks of a chain
+		if block < uint64(common.MaxNonce) || b > block-uint64(common.MaxNonce) {
 			break
 		}
 		k.RemoveRecentMsg(ctx, b)
@@ -119,7 +120,7 @@ func (c *cacheParams) commit(ctx sdk.Context, k common.KeeperOracle) {
 	// block b" for every replayed block b, so an entry may only go once a newer one is also out of the window
 	i := 0
 	for ; i+1 < len(index.Index); i++ {
-		if index.Index[i+1] >= block-uint64(common.MaxNonce) {
+		if block < uint64(common.MaxNonce) || index.Index[i+1] >= block-uint64(common.MaxNonce) {
 			break
 		}
 		k.RemoveRecentParams(ctx, index.Index[i])
